@@ -1460,6 +1460,12 @@ class Circuit(Unitary, StateVectorMap, Collection[Operation]):
             self.insert(cycle_index, op)
             return
 
+        if cycle_index >= self.num_cycles:
+            # Inserting past the last cycle is appending; doing it through
+            # `insert` would append the operations one by one in reverse.
+            self.append_circuit(circuit, location)
+            return
+
         for op in reversed(circuit):
             mapped_location = [location[q] for q in op.location]
             self.insert(
